@@ -7,6 +7,8 @@ from . import io_contracts as ioc
 TARGETS = [ioc.M_OUT + ":Output." + m for m in ("write", "write_line", "write_raw", "write_line_raw")]
 TARGETS += [ioc.M_IO + ":IO." + m for m in ("write_line", "write_line_raw", "error_line", "error_line_raw")]
 TARGETS += [ioc.M_SEC + ":SectionOutput.write", {"qual": ioc.M_OUT + ":Output.write_line", "self_cls": "SectionOutput"}]
+from . import style_contracts as sc
+TARGETS += [sc.M_SC + ":StyleConverter.convert"]
 LEMMAS = []
 try:
     from .C11_bounded import bounded, BOUNDED_RULE  # noqa: F401
